@@ -255,22 +255,23 @@ Section OvlExists.
     intros [ex|e|] Hex; try contradiction. destruct ex; [constructor; exact Hl|exact IH].
   Qed.
 
+  Lemma lower_total : Forall (fun l => exists_total (fst l)) lower.
+  Proof. now inversion all_total. Qed.
+
   Lemma read_path_total p : leaves A_nofault rp_post (read_path top lower p).
   Proof.
     unfold read_path. destruct p as [|x p']; [constructor; apply top_total|]. set (p := x :: p').
-    unfold bind_res. eapply leaves_bind; [apply (top_total (whiteout_path top p))|].
+    unfold bind_res. eapply leaves_bind; [apply (top_total (write_path top p))|].
+    intros [up|e|] Hup; try contradiction. destruct up; [constructor; apply top_total|].
+    eapply leaves_bind; [apply (top_total (whiteout_path top p))|].
     intros [wo|e|] Hwo; try contradiction. destruct wo; [constructor; reflexivity|].
-    eapply leaves_bind; [apply first_layer_total, all_total|].
-    intros [[lp|]|e|] Hlp; try contradiction; [constructor; exact Hlp|].
-    eapply leaves_bind; [apply (top_total (write_path top p))|].
-    intros [ex|e|] Hex; try contradiction. destruct ex; constructor; [apply top_total|reflexivity].
+    eapply leaves_bind; [apply first_layer_total, lower_total|].
+    intros [[lp|]|e|] Hlp; try contradiction; constructor; [exact Hlp|reflexivity].
   Qed.
 
   Lemma ovl_exists_total p : leaves A_nofault is_ok (ovl_exists top lower p).
   Proof.
-    unfold ovl_exists, bind_res. eapply leaves_bind; [apply (top_total (whiteout_path top p))|].
-    intros [wo|e|] Hwo; try contradiction. destruct wo; [constructor; exact I|].
-    eapply leaves_bind; [apply read_path_total|].
+    unfold ovl_exists. eapply leaves_bind; [apply read_path_total|].
     intros [lp|e|] Hlp; try contradiction.
     - apply Hlp.
     - cbn in Hlp. rewrite Hlp. constructor. exact I.
